@@ -310,10 +310,13 @@ def tui_common(ctx, cfg, fams):
         ctx.sim("script%d" % k, n, TUI, cfg, package="vt", subcmd="tui", batch=10 ** 9, seed_off=k,
                 env={"VT_SCRIPTS": path}, conf=("conf/ConfTui.tla", "ConfTui_%d.cfg" % k))
     for i, (fam, nq, nt) in enumerate(fams):
-        ctx.sim(fam, nq if q else nt, TUI, cfg, package="vt", subcmd="tui", batch=40, seed_off=10 + i, par=8)
+        ctx.sim(fam, nq if q else nt, TUI, cfg, package="vt", subcmd="tui", batch=40, seed_off=10 + i, par=8,
+                conf=("conf/ConfSettings.tla", "ConfSettings.cfg"))
 
 
 def c17(ctx):
+    ctx.model("mc/MC_Settings.tla", "MC_Settings.cfg", workers=4)
+    ctx.model("mc/MC_Settings.tla", "MC_Settings_bad.cfg", workers=2, expect_violation="ItemOK", label="MC_Settings_bad (non-vacuity: a declared item count above the rendered rows)")
     tui_common(ctx, "MonTui_C17.cfg", [("tui", 240, 6000), ("long", 8, 200)])
     if "F24" in ctx.known and "F24" not in ctx.known_printed:
         # F24 depends on the process's hash seed: it is listed whether or not this run happened to hit it
